@@ -108,6 +108,8 @@ class Interp:
         cls = self.exc_classes[clsname] if isinstance(clsname, str) else clsname
         o = Obj(cls)
         o.fields["args"] = tuple(args)
+        if any(c.name == "OSError" for c in cls.mro):
+            o.fields["errno"] = None
         o.fields.update(fields)
         return o
 
@@ -167,6 +169,8 @@ class Interp:
         """instances of str subclasses (client.Code) carry their value in __value__"""
         if isinstance(v, Obj) and "__value__" in v.fields:
             return v.fields["__value__"]
+        if isinstance(v, (LazyOpt, LazyLinked)):
+            return v.force()
         return v
 
     def truthy_term(self, v):
@@ -337,6 +341,7 @@ class Interp:
             self.throw("TypeError", "unorderable")
 
     def is_(self, a, b):
+        a, b = self.unbox(a), self.unbox(b)
         if a is None or b is None:
             return a is b
         if isinstance(a, SV) and isinstance(b, SV):
@@ -497,6 +502,8 @@ class Interp:
 
     # ------------------------------------------------------------------ attribute access
     def getattr_(self, v, name):
+        if isinstance(v, (LazyOpt, LazyLinked)):
+            v = v.force()
         if isinstance(v, Obj):
             ga, _ = v.cls.lookup("__getattribute_model__")
             if name in v.fields:
@@ -661,6 +668,8 @@ class Interp:
         o = Obj(cls)
         if any(c.name == "BaseException" for c in cls.mro):
             o.fields["args"] = tuple(args)
+            if any(c.name == "OSError" for c in cls.mro):
+                o.fields["errno"] = args[0] if len(args) >= 2 else None
         init, owner = cls.lookup("__init__")
         if init is not None:
             self.call(BoundMethod(o, init), args, kwargs)
@@ -1175,6 +1184,11 @@ class Interp:
         """Loop cut by an inductive invariant (spec): init / havoc / assume / arbitrary iteration."""
         spec.establish(self, env, lname)
         targets = assigned_names(s.body) | (assigned_names([s.target]) if hasattr(s, "target") else set())
+        # soundness of the loop cut: containers mutated in place by the body must be havocked too
+        for name in mutated_names(s.body):
+            e = env.find(name)
+            if e is not None and isinstance(e.vars[name], (list, set, dict)) and name not in spec.shapes and name not in targets:
+                raise Unsupported(f"loop {lname} mutates container {name!r} in place; its loop contract must give a shape for it")
         spec.havoc(self, env, targets, lname)
         spec.assume(self, env, lname)
         if cond():
@@ -1547,6 +1561,44 @@ class Interp:
                 yield from self.comp_envs(gens[1:], cenv)
 
 
+class LazyOpt:
+    """A value that is either None or a fresh symbolic scalar; decided (forked) only when first inspected."""
+
+    def __init__(self, it, kind, name, constraint=None, concrete=None):
+        self.it = it
+        self.concrete = concrete
+        self.kind = kind
+        self.name = name
+        self.constraint = constraint
+        self.resolved = False
+        self.value = None
+
+    def force(self):
+        if not self.resolved:
+            self.resolved = True
+            if self.it.ctx.choose(2, f"{self.name}-is-None") == 1:
+                self.value = None
+            else:
+                self.value = fresh(self.kind, self.name) if self.concrete is None else self.concrete
+                if self.constraint is not None and self.concrete is None:
+                    self.it.ctx.assume(self.constraint(self.value))
+        return self.value
+
+    def __repr__(self):
+        return f"<lazyopt {self.name}>"
+
+
+class LazyLinked:
+    """a value that is None exactly when a LazyOpt is None (AvailableConnections.maximum_value vs value)"""
+
+    def __init__(self, master, value):
+        self.master = master
+        self.value = value
+
+    def force(self):
+        return None if self.master.force() is None else self.value
+
+
 class SuperProxy(Model):
     model_name = "super"
 
@@ -1622,6 +1674,23 @@ def assigned_names(stmts):
                 names.add(n.id)
             elif isinstance(n, (ast.FunctionDef, ast.AsyncFunctionDef, ast.ClassDef)):
                 names.add(n.name)
+    return names
+
+
+MUTATORS = {"add", "append", "extend", "update", "pop", "remove", "discard", "insert", "clear", "popleft", "setdefault", "reverse", "sort"}
+
+
+def mutated_names(stmts):
+    names = set()
+    for s in stmts:
+        for n in ast.walk(s):
+            if isinstance(n, ast.Call) and isinstance(n.func, ast.Attribute) and isinstance(n.func.value, ast.Name) and n.func.attr in MUTATORS:
+                names.add(n.func.value.id)
+            elif isinstance(n, (ast.Assign, ast.AugAssign, ast.Delete)):
+                tgts = n.targets if isinstance(n, (ast.Assign, ast.Delete)) else [n.target]
+                for t in tgts:
+                    if isinstance(t, ast.Subscript) and isinstance(t.value, ast.Name):
+                        names.add(t.value.id)
     return names
 
 
